@@ -98,6 +98,11 @@ def _point_iso(name, P, i):
     m = GM.make_model(name, P, temperature=298.0)
     ps = numpy.exp(numpy.linspace(math.log(1e-4), math.log(1e4), 400))
     ls = numpy.asarray(m.loading(ps), dtype=float)
+    if i % 3 == 2:
+        # as an instrument reports it: loadings rounded to two decimals (runs of equal values on the plateau)
+        ls = numpy.round(ls, 2)
+        keep = ls > 0
+        ps, ls = ps[keep], ls[keep]
     if i % 2:
         # with a (hysteretic) desorption branch as well: IAST works on the adsorption branch unless told otherwise
         pd_ = ps[::-7][1:]
@@ -129,8 +134,27 @@ def _build(case, r):
     else:
         comps = [(nme, _params(nme, r)) for nme in [r.choice(MIX_MODELS) for _ in range(n)]]
     isos = [(_point_iso if fl == "point" else _model_iso)(nme, P, i) for i, (nme, P) in enumerate(comps)]
-    pp = [round(gen.log_uniform(r, 0.01, 30), 6) for _ in range(n)]
+    # partial pressures over six decades: traces (1e-5) next to bulk components
+    u = r.random()
+    lo_p, hi_p = (1e-6, 1e-3) if u < 0.2 else (1e-5, 30) if u < 0.5 else (0.01, 30)  # (a fifth of the mixtures is dilute throughout: Henry regime)
+    pp = [round(gen.log_uniform(r, lo_p, hi_p), 9) for _ in range(n)]
     return comps, isos, pp
+
+
+def _independent_spreading(isos, p0):
+    import pygaps
+    from pgverif.checks import c11
+    out = []
+    for iso, q in zip(isos, p0):
+        try:
+            if isinstance(iso, pygaps.ModelIsotherm):
+                out.append(c11._quad_lnp(iso.model.loading, 0, float(q))[0])
+            else:
+                ps, ls = iso.pressure(branch="ads"), iso.loading(branch="ads")
+                out.append(c11._point_reference(list(map(float, ps)), list(map(float, ls)), float(q)) if float(q) <= float(ps.max()) else None)
+        except Exception:
+            out.append(None)
+    return out
 
 
 def _verify_result(ctx, key, isos, pp, loadings, info):
@@ -160,6 +184,23 @@ def _verify_result(ctx, key, isos, pp, loadings, info):
         sps.append(float(numpy.asarray(a[1]).ravel()[0]))
         n0.append(float(numpy.asarray(b[1]).ravel()[0]))
     ctx.hook("iast_equations_verified")
+    # the spreading pressures once more from an independent integration of each pure isotherm (quadrature of the model's loading
+    # in ln p; closed-form integral of the piecewise-linear interpolant for measured data): the library's own
+    # spreading_pressure_at is not its own judge
+    ind = _independent_spreading(isos, p0)
+    if ind is not None:
+        ctx.count("independent_spreading", "compared")
+        for s_lib, s_ind, iso in zip(sps, ind, isos):
+            quad_based = hasattr(iso, "model") and iso.model.name in ("Toth", "JensenSeaton")  # (the library value is itself a quadrature)
+            if s_ind is not None and abs(s_lib - s_ind) > (5e-6 if quad_based else 2e-6) * abs(s_ind) + 1e-10 * (1 + abs(s_ind)):
+                if hasattr(iso, "model") and iso.model.name == "TemkinApprox" and close(s_lib - s_ind, iso.model.params["n_m"] * iso.model.params["tht"] / 2, 1e-6, 1e-9):
+                    # the recorded C11 finding (constant offset n_m tht / 2 of the TemkinApprox antiderivative) as it shows in a mixture
+                    ctx.violation("iast/TemkinApprox-component/spreading-pressure-offset=n_m*tht/2", "a TemkinApprox component enters the equal-spreading-pressure condition with a constant offset", library=s_lib,
+                                  independent=s_ind, **info)
+                    return False
+                ctx.violation(key + "/spreading-pressure-not-the-integral", "the spreading pressure used for a pure component is not the integral of its loading over ln p", library=s_lib, independent=s_ind,
+                              component=type(iso).__name__ + ":" + (iso.model.name if hasattr(iso, "model") else "points"), **info)
+                return False
     scale = max(abs(s) for s in sps)
     # the solver works in the mole fractions (tolerance ~1.5e-8): d(Pi_i)/d(x_i) = -n_i0/x_i, so a tiny x_i makes
     # its spreading pressure extremely sensitive; the admissible residual follows that conditioning
